@@ -2250,7 +2250,10 @@ impl RdfExpressionPredicate {
                 if args.is_empty() {
                     return None;
                 }
-                let is_bound = self.eval_expr(&args[0], chunk, row).is_some();
+                // An unbound variable (OPTIONAL / UNION) is a NULL cell, not a missing column
+                let is_bound = self
+                    .eval_expr(&args[0], chunk, row)
+                    .is_some_and(|v| !matches!(v, Value::Null));
                 Some(Value::Bool(is_bound))
             }
 
